@@ -31,6 +31,22 @@ func (f *Frame) callExtern(v ssa.Value, fn *ssa.Function, argVals []ssa.Value, a
 			return nil
 		}
 		rs := f.freshResults(v, v.Name())
+		// an error made by strconv or time wraps no error of this package (errors.As finds no *Error in it)
+		if strings.HasPrefix(name, "strconv.") || name == "time.Parse" {
+			ts := []types.Type{v.Type()}
+			if tup, ok := v.Type().(*types.Tuple); ok {
+				ts = ts[:0]
+				for i := 0; i < tup.Len(); i++ {
+					ts = append(ts, tup.At(i).Type())
+				}
+			}
+			for i, r := range rs {
+				if i < len(ts) && types.TypeString(ts[i], nil) == "error" {
+					et := types.NewPointer(f.lookupType("Error"))
+					f.enc.factAbout(r, Eq(unwrapTerm(f.enc, f.p, r, et), Zero))
+				}
+			}
+		}
 		// references returned by code outside the package denote objects that exist now (they cannot coincide with
 		// anything allocated later)
 		if tup, ok := v.Type().(*types.Tuple); ok {
@@ -231,7 +247,33 @@ func (f *Frame) callExtern(v ssa.Value, fn *ssa.Function, argVals []ssa.Value, a
 		f.oblige("panic", "reflect.Value.Type-of-invalid", pos, rvValid(f.enc, args[0]))
 		r := f.setVal(v, rvType(f.enc, args[0]))
 		f.enc.factAbout(r, Implies(rvValid(f.enc, args[0]), Not(Eq(App(SInt, "tag", r), Zero))))
+	case "reflect.New":
+		// a valid Value holding a non-nil pointer to a new zero value of the type
+		f.oblige("panic", "reflect.New-nil-type", pos, Not(Eq(App(SInt, "tag", args[0]), Zero)))
+		res := mkRes()
+		fnn := f.enc.declFun("rv_newptr", []Sort{res[0].Sort}, SBool)
+		f.enc.factAbout(res[0], And(rvValid(f.enc, res[0]), App(SBool, fnn, res[0])))
+		f.setResults(v, res)
 	case "(reflect.Value).Interface":
+		// Interface panics on the zero Value. Checked for a receiver that is a local variable (a merge of assignments, a
+		// constant, a load of a local): the Values handed out by other reflect calls (Index, Call, Field ...) are not
+		// modelled closely enough to decide validity and are assumed valid.
+		local := false
+		switch x := argVals[0].(type) {
+		case *ssa.Phi, *ssa.Const:
+			local = true
+		case *ssa.UnOp:
+			_, local = x.X.(*ssa.Alloc)
+		}
+		if local {
+			f.oblige("panic", "reflect.Value.Interface-of-invalid", pos, rvValid(f.enc, args[0]))
+		}
+		defer func() {
+			if r, ok := f.vals[v]; ok {
+				fnn := f.enc.declFun("rv_newptr", []Sort{args[0].Sort}, SBool)
+				f.enc.factAbout(r, Implies(App(SBool, fnn, args[0]), Not(Eq(App(SInt, "tag", r), Zero))))
+			}
+		}()
 		// Interface panics on a Value obtained through an unexported struct field. Checked when the receiver comes
 		// straight from a struct-field accessor (the only source of such Values in this package); otherwise assumed.
 		if cl, ok := argVals[0].(*ssa.Call); ok && f.checks("panic") {
@@ -313,8 +355,8 @@ func externDoc(name string) string {
 		return "returns a fresh non-nil error whose dynamic type is neither *Error nor Errors and whose chain holds no *Error"
 	case name == "reflect.TypeOf":
 		return "a deterministic function of the interface value (its dynamic type); nil exactly for a nil interface"
-	case name == "reflect.ValueOf" || name == "reflect.Zero" || name == "(reflect.Value).IsValid" || name == "(reflect.Value).Type":
-		return "reflect.Value modelled by validity and dynamic type: ValueOf(x) is valid iff x is a non-nil interface; Zero(t) is valid with type t; Type panics on an invalid Value"
+	case name == "reflect.ValueOf" || name == "reflect.Zero" || name == "reflect.New" || name == "(reflect.Value).Interface" || name == "(reflect.Value).IsValid" || name == "(reflect.Value).Type":
+		return "reflect.Value modelled by validity and dynamic type: ValueOf(x) is valid iff x is a non-nil interface; Zero(t) is valid with type t; Type and Interface panic on an invalid Value; New(t) is valid and its Interface is a non-nil pointer"
 	case name == "(reflect.Value).Call":
 		return "does not panic when the callee is valid, the argument count fits its type and every argument is valid and assignable to its parameter (contract axiom callOkDef); results unconstrained"
 	case name == "errors.Is":
@@ -322,7 +364,9 @@ func externDoc(name string) string {
 	case name == "errors.As":
 		return "finds the first *Error / Errors in the chain; exact when the error itself has the target type"
 	case name == "strconv.ParseInt" || name == "strconv.ParseFloat":
-		return "a successful parse fits the requested bit size; value otherwise unconstrained"
+		return "a successful parse fits the requested bit size; value otherwise unconstrained; the error wraps no *Error of this package"
+	case name == "time.Parse" || strings.HasPrefix(name, "strconv."):
+		return "results unconstrained, no effect on modelled ggql state; the error wraps no *Error of this package"
 	case name == "strings.HasPrefix":
 		return "exact for a constant prefix (length and leading bytes); unconstrained otherwise"
 	case strings.HasPrefix(name, "math.Is"):
